@@ -417,8 +417,10 @@ class Element(Node):
             for arg in args.keys():
                 self.setAttribute(arg, args[arg])
         else:
-            for arg in args.keys():  # If any attribute is allowed
-                self.attributes[arg]=args[arg]
+            # any attribute is allowed, but a keyword does not say which
+            # namespace it is in: setAttribute refuses it, as it does later on
+            for arg in args.keys():
+                self.setAttribute(arg, args[arg])
         if check_grammar:
             # Test that all mandatory attributes have been added.
             required = grammar.required_attributes.get(self.qname)
